@@ -302,13 +302,18 @@ def cargo_features(repo):
     return feats, msgs
 
 
-def coherence(prog, res, repo, rule="D-coh", floor=108):
-    """All C14 obligations over the extracted tables."""
+ROUNDTRIP_KEYS = ("number-source", "return-shape", "typed-arm", "arm-complete")
+
+
+def coherence(prog, res, repo, rule="D-coh", floor=108, dec_keys=None):
+    """All C14 obligations over the extracted tables.  dec_keys: restrict the decode-table obligations to these key prefixes
+    (properties that only need 'number n is decoded by codec n into variant n', not the exact classification of failures)."""
     adt = adt_table(prog)
     if adt is None:
         res.missing(rule, MSG)
         return None
-    dec = decode_table(prog, res)
+    import engine
+    dec = decode_table(prog, engine.Filtered(res, {"T-dec"}, dec_keys) if dec_keys else res)
     num = number_table(prog, res)
     enc = encode_table(prog, res)
     if dec is None or num is None or enc is None:
